@@ -74,21 +74,22 @@ type Config struct {
 	RecoverLogin bool `json:"recover_login,omitempty"`
 	EmailAuth    bool `json:"email_auth,omitempty"`
 
-	LogoutMethod string   `json:"logout_method,omitempty"`
-	MailMethod   string   `json:"mail_method,omitempty"`
-	Whitelist    []string `json:"whitelist,omitempty"`
-	Preserve     []string `json:"preserve,omitempty"`
-	RegWhitelist []string `json:"reg_whitelist,omitempty"` // extra register whitelist fields
-	MailGo       bool     `json:"mail_go,omitempty"`       // library starts mail goroutines
-	Err500       bool     `json:"err500,omitempty"`
-	OneTimeTOTP  bool     `json:"onetime_totp,omitempty"`
-	Middleware   string   `json:"mw,omitempty"` // "remember" | "expire" | ""
-	ModuleList   bool     `json:"module_list,omitempty"`
-	HTTPS        bool     `json:"https,omitempty"`
-	Providers    []string `json:"providers,omitempty"`
-	SetupsFirst  bool     `json:"setups_first,omitempty"`   // the 2FA / expire Setup() calls run before ab.Init()
-	Mailer       string   `json:"mailer,omitempty"`         // "" harness mailbox | "log" defaults.LogMailer | "smtp" defaults.SMTPMailer against a loopback server
-	ShippedLog   bool     `json:"shipped_logger,omitempty"` // defaults.Logger instead of the capturing logger
+	LogoutMethod   string   `json:"logout_method,omitempty"`
+	MailMethod     string   `json:"mail_method,omitempty"`
+	Whitelist      []string `json:"whitelist,omitempty"`
+	Preserve       []string `json:"preserve,omitempty"`
+	RegWhitelist   []string `json:"reg_whitelist,omitempty"` // extra register whitelist fields
+	MailGo         bool     `json:"mail_go,omitempty"`       // library starts mail goroutines
+	Err500         bool     `json:"err500,omitempty"`
+	OneTimeTOTP    bool     `json:"onetime_totp,omitempty"`
+	Middleware     string   `json:"mw,omitempty"` // "remember" | "expire" | ""
+	ModuleList     bool     `json:"module_list,omitempty"`
+	HTTPS          bool     `json:"https,omitempty"`
+	Providers      []string `json:"providers,omitempty"`
+	LegacyRedirect bool     `json:"legacy_redirect,omitempty"` // Modules.RoutesRedirectOnUnauthed=true instead of ResponseOnUnauthed (module routes only)
+	SetupsFirst    bool     `json:"setups_first,omitempty"`    // the 2FA / expire Setup() calls run before ab.Init()
+	Mailer         string   `json:"mailer,omitempty"`          // "" harness mailbox | "log" defaults.LogMailer | "smtp" defaults.SMTPMailer against a loopback server
+	ShippedLog     bool     `json:"shipped_logger,omitempty"`  // defaults.Logger instead of the capturing logger
 
 	Accounts []AccountSpec `json:"accounts"`
 	Browsers int           `json:"browsers"`
@@ -349,6 +350,11 @@ func NewWorld(cfg Config) (w *World, err error) {
 	ab.Config.Modules.MailNoGoroutine = !cfg.MailGo
 	ab.Config.Modules.TOTP2FAIssuer = "VerifIssuer"
 	ab.Config.Modules.ResponseOnUnauthed = authboss.MWRespondOnFailure(cfg.Refusal)
+	if cfg.LegacyRedirect {
+		// the deprecated spelling of "redirect unauthenticated users": only honoured when the new field is unset
+		ab.Config.Modules.ResponseOnUnauthed = 0
+		ab.Config.Modules.RoutesRedirectOnUnauthed = true
+	}
 	ab.Config.Modules.RegisterPreserveFields = append([]string(nil), cfg.Preserve...)
 	ab.Config.Mail.From = "noreply@site.example"
 	ab.Config.Storage.SessionStateWhitelistKeys = append([]string(nil), cfg.Whitelist...)
@@ -691,9 +697,12 @@ type Req struct {
 	// FormMulti, when set, is sent instead of Form in form mode (duplicate fields).
 	FormMulti url.Values
 	RawBody   *string
-	CType     string // overrides the content type
-	Fault     FaultPlan
-	Headers   map[string]string
+	// JSONMangle (JSON mode only) spoils the encoded body the way real clients do: "bool" / "num" append a
+	// non-string member, "trunc" cuts the body short, "array" wraps it, "dupkey" repeats a member.
+	JSONMangle string
+	CType      string // overrides the content type
+	Fault      FaultPlan
+	Headers    map[string]string
 }
 
 // Resp is everything observable about the outcome.
@@ -757,6 +766,7 @@ func (w *World) BuildRequest(q Req) *http.Request {
 			m = map[string]string{}
 		}
 		b, _ := json.Marshal(m)
+		b = mangleJSON(b, q.JSONMangle)
 		body = bytes.NewReader(b)
 		ctype = "application/json"
 	case q.FormMulti != nil:
@@ -793,6 +803,32 @@ func (w *World) BuildRequest(q Req) *http.Request {
 		req.Header.Set(k, v)
 	}
 	return req
+}
+
+func mangleJSON(b []byte, how string) []byte {
+	if how == "" || len(b) < 2 || b[len(b)-1] != '}' {
+		return b
+	}
+	inner := string(b[:len(b)-1])
+	sep := ","
+	if inner == "{" {
+		sep = ""
+	}
+	switch how {
+	case "bool":
+		return []byte(inner + sep + `"rm":true}`)
+	case "num":
+		return []byte(inner + sep + `"code":123456}`)
+	case "null":
+		return []byte(inner + sep + `"redir":null}`)
+	case "trunc":
+		return b[:len(b)-1-len(b)/8]
+	case "array":
+		return []byte("[" + string(b) + "]")
+	case "nested":
+		return []byte(inner + sep + `"extra":{"a":"b"}}`)
+	}
+	return b
 }
 
 // Do runs one request in-process.
